@@ -6,8 +6,9 @@
    (AllTargets()).  wf g: every dependency is a target of the graph.  nodes g: the targets 0..|g|-1.
    is_cycle g c: c is non-empty, each element depends on the next, the last on the first.
    has_cycle g: some c is a cycle of g.  Fuel is the model's out-of-fuel value. *)
-From PlzV Require Import Base.Harness Model.C06 Gen.CycleVisit Model.C06_Skel Proof.C06 Proof.C06_Seq Proof.C06_Skel.
-From Coq Require Import Permutation Lia.
+From PlzV Require Import Base.Harness Model.C06 Gen.CycleVisit Model.C06_Skel Proof.C06 Proof.C06_Seq Proof.C06_Skel
+  Proof.C06_Simple Proof.C06_Kind Proof.C06_Life Proof.C06_Ext.
+From Coq Require Import Permutation Lia Relations.
 
 (* src_detect (Model/C06_Skel.v) = the control skeleton of Check and of its visit closure as gotrans
    regenerates it from src/core/cycle_detector.go on every run (Gen/CycleVisit.v), run by an
@@ -63,10 +64,79 @@ Definition C06_session_statement : Prop :=
      (* after Stop() the detector reports nothing any more (assumption "c.stopped is false") *)
      /\ (stopped wk = true -> o = Clean)).
 
-Definition C06_statement : Prop := C06_check_statement /\ C06_session_statement.
+(* EDGES OF EVERY KIND.  The resolved dependency graph is what the build waits for: Dependencies() of every
+   target (queueTargetAsync waits for each of them), i.e. every resolved entry of target.dependencies whether it
+   was declared through deps, srcs (source), data, as a run-time or as an internal dependency.
+   kworld = target.dependencies of every target (label, the four flags, resolved targets); kw_run n ops = the
+   world after the history ops of AddMaybeExportedDependency / AddDatum / resolveDependency calls on n targets
+   (flags are merged as AddMaybeExportedDependency and AddDatum merge them); kvalid: a dependency is resolved to
+   an existing target; wait_graph / build_graph = Dependencies() / BuildDependencies() of every target, sorted by
+   label (ranks); kinded_env = those targets, their accessors as regenerated from build_target.go, in ANY states
+   (rk); src_detect_env n env = the regenerated Check on them. *)
+Definition C06_edges_statement : Prop :=
+  (* Check is a function of Dependencies() alone *)
+  (forall ranks w rk order,
+     src_detect_env (length w) (kinded_env ranks w rk) order = detect (wait_graph ranks w) order)
+  /\
+  (* after any history: sound and complete for the graph the build waits for - a cycle through an edge of any
+     kind is reported *)
+  (forall n ranks ops rk order,
+     Forall (kvalid n) ops -> Permutation order (seq 0 n) ->
+     let w := kw_run n ops in
+     length w = n /\ wf (wait_graph ranks w)
+     /\ correct_for (wait_graph ranks w) (src_detect_env n (kinded_env ranks w rk) order))
+  /\
+  (* BuildDependencies() is a sub-graph of it, equal to it when no entry carries a flag ... *)
+  (forall ranks w a b, edge (build_graph ranks w) a b -> edge (wait_graph ranks w) a b)
+  /\ (forall ranks w, (forall l, In l w -> all_plain l) -> build_graph ranks w = wait_graph ranks w)
+  /\
+  (* ... and a walk over it alone misses a cycle *)
+  (exists n ranks ops order,
+     Forall (kvalid n) ops /\ Permutation order (seq 0 n)
+     /\ has_cycle (wait_graph ranks (kw_run n ops))
+     /\ detect (build_graph ranks (kw_run n ops)) order = Clean).
+
+(* THE REPORTED SLICE is an elementary cycle: besides is_cycle (above) no target is listed twice, so it is
+   at most as long as the graph; and it has to be reported whole: dropping members (drop keep c = the members
+   satisfying keep, or all of c if none does - e.g. "the label is not hidden") breaks is_cycle. *)
+Definition C06_report_statement : Prop :=
+  (forall g order c, src_detect g order = Found c -> NoDup c)
+  /\ (forall g order c, wf g -> src_detect g order = Found c -> length c <= length g)
+  /\ (exists g order c keep,
+        wf g /\ src_detect g order = Found c /\ is_cycle g c /\ ~ is_cycle g (drop keep c)).
+
+(* TARGET STATES.  lworld = State() of every target + the successfully built ones in the order they finished;
+   events: LQueue t (queueResolvedTarget: Inactive -> Active), LDepFailed t d (queueTargetAsync: d is the first
+   dependency of t, in the order of Dependencies(), that is not built, and it finished failed: t :=
+   DependencyFailed), LReady t (all dependencies built: Active -> Pending), LBuild t r (the build step ends in a
+   built state or in Failed); lrun g w es = the world after attempting es in order (an event that cannot happen
+   changes nothing); settled g roots plan = the world the comparison with the real queueing code uses.
+   life_env g w = the targets of g in the states of w. *)
+Definition C06_states_statement : Prop :=
+  (* Check does not look at states: in every world its result is that of the hand model on the graph *)
+  (forall g w order, src_detect_env (length g) (life_env g w) order = detect g order)
+  /\
+  (* invariant over all histories: the built targets form a post-order, built states are final, a Pending
+     target has all its dependencies built *)
+  (forall g n es, linv g (lrun g (lworld0 n) es))
+  /\
+  (* "a target only gets built once everything beneath it has been" *)
+  (forall g n es v d, let w := lrun g (lworld0 n) es in
+     is_built (state_of w v) = true -> edge g v d -> is_built (state_of w d) = true)
+  /\
+  (* so a target in a built state (Built <= s < DependencyFailed) is on no cycle - but a target in a state
+     >= Built can be: members of a cycle do become DependencyFailed *)
+  guard_ok is_built
+  /\ ~ guard_ok (fun s => N.leb (rank Built) (rank s))
+  /\ (forall g roots plan, exists es, settled g roots plan = lrun g (lworld0 (length g)) es).
+
+Definition C06_statement : Prop :=
+  C06_check_statement /\ C06_session_statement /\ C06_edges_statement /\ C06_report_statement /\ C06_states_statement.
 
 Theorem C06_full : C06_statement.
-Proof. exact (conj src_detect_correct src_session_correct). Qed.
+Proof.
+  exact (conj src_detect_correct (conj src_session_correct (conj src_edges_correct (conj src_report_correct src_states_correct)))).
+Qed.
 Print Assumptions C06_full.
 
 (* Non-vacuity.  A cycle (4 -> 2 -> 4) that is reached only after an acyclic part (3, then 1) has been
@@ -119,4 +189,37 @@ Proof.
   - cbn. apply Permutation_sym. apply (Permutation_cons_append [1; 2] 0).
   - split; [reflexivity |]. split; [| split; vm_compute; reflexivity].
     exists [0; 1; 2]. split; [discriminate |]. cbn. tauto.
+Qed.
+
+(* Edges of every kind: 0 has 1 in its srcs and 2 in its data, 1 depends on 2 at run time, 2 depends on 0 -
+   declared as data first and then as an ordinary dependency, which clears the data flag.  Labels sort 2 < 0 < 1.
+   Every cycle goes through a flagged edge; BuildDependencies() keeps only 2 -> 0. *)
+Example C06_nonvacuous_edges :
+  let ops := [(0, KDeclare 1 true false false); (0, KDatum 2); (1, KDeclare 2 false false true);
+              (2, KDatum 0); (2, KDeclare 0 false false false);
+              (0, KResolve 2); (0, KResolve 1); (1, KResolve 2); (2, KResolve 0)] in
+  let w := kw_run 3 ops in
+  Forall (kvalid 3) ops /\ Permutation [2; 0; 1] (seq 0 3)
+  /\ wait_graph [1; 2; 0] w = [[2; 1]; [2]; [0]]
+  /\ build_graph [1; 2; 0] w = [[]; []; [0]]
+  /\ has_cycle (wait_graph [1; 2; 0] w)
+  /\ src_detect_env 3 (kinded_env [1; 2; 0] w (fun _ => 0%N)) [2; 0; 1] = Found [0; 2].
+Proof.
+  cbn zeta. split; [repeat constructor |]. split.
+  - apply (Permutation_cons_append [0; 1] 2).
+  - split; [vm_compute; reflexivity |]. split; [vm_compute; reflexivity |]. split; [| vm_compute; reflexivity].
+    exists [2; 0]. split; [discriminate |]. vm_compute. tauto.
+Qed.
+
+(* States: 0 -> {1, 2} and 2 -> 0 with the build of 1 failing: the real queueing code leaves 0 and 2
+   DependencyFailed, the cycle 0 <-> 2 is in the graph and Check reports it whatever the states are. *)
+Example C06_nonvacuous_states :
+  let g := [[1; 2]; []; [0]] in
+  let w := settled g [0] [Built; Failed; Built] in
+  l_state w = [DependencyFailed; Failed; DependencyFailed]
+  /\ clos_trans nat (edge g) 0 0
+  /\ src_detect_env (length g) (life_env g w) [0; 1; 2] = Found [2; 0].
+Proof.
+  cbn zeta. split; [vm_compute; reflexivity |]. split; [| vm_compute; reflexivity].
+  apply t_trans with 2; apply t_step; cbn; tauto.
 Qed.
